@@ -407,6 +407,30 @@ def opSbcRun (args : List String) : String :=
 
 end sbc
 
+/-- `classify <dim|None> <nAtoms> <minCoverage> <regions: none | nBasis.nConn.is2d.rid separated by ;>` -/
+def opClassify (args : List String) : String :=
+  open Matid.Classifier in
+  match args with
+  | [dimS, nS, covS, regS] =>
+    let dim? : Option (Option Int) := if dimS == "None" then some none else (dimS.toInt?).map some
+    let regs? : Option (List (Option RegionInfo)) := if regS == "-" then some [] else (regS.splitOn ";").mapM fun r =>
+      if r == "none" then some none else
+      match (r.splitOn ".").mapM String.toNat? with
+      | some [b, c, t, rid] => some (some { nBasis := b, nConn := c, is2d := t == 1, rid := rid })
+      | _ => none
+    match dim?, nS.toNat?, parseRat? covS, regs? with
+    | some dim, some n, some cov, some regs =>
+      let c := classify dim n cov regs
+      let name := match c with
+        | .unknown => "Unknown" | .atom => "Atom" | .class0D => "Class0D" | .class1D => "Class1D" | .class2D => "Class2D"
+        | .surface => "Surface" | .material2D => "Material2D" | .class3D => "Class3D" | .noResult => "NoneType"
+      let rid := match dim with
+        | some 2 => (match crossValidate n regs none 0 with | some r => r.rid | none => 0)
+        | _ => 0
+      name ++ " region=" ++ toString rid ++ " calls=" ++ toString (match dim with | some 2 => callsMade n regs | _ => 0)
+    | _, _, _, _ => "bad-op"
+  | _ => "bad-op"
+
 def step (line : String) : String :=
   match words line with
   | "radii" :: args => opRadii args
@@ -431,6 +455,7 @@ def step (line : String) : String :=
   | "sbclocalize" :: args => opSbcLocalize args
   | "sbcclean" :: args => opSbcClean args
   | "sbcrun" :: args => opSbcRun args
+  | "classify" :: args => opClassify args
   | _ => "bad-op"
 
 partial def loop (h : IO.FS.Stream) (out : IO.FS.Stream) : IO Unit := do
